@@ -44,6 +44,7 @@ class AuxHashMap final {
                                    bool srcCompact, const A& allocator);
     virtual ~AuxHashMap() = default;
     static std::function<void(AuxHashMap<A>*)> make_deleter();
+    static void checkLgArrInts(uint8_t lgAuxArrInts, uint8_t lgConfigK);
     
     AuxHashMap* copy() const;
     uint32_t getUpdatableSizeBytes() const;
